@@ -246,6 +246,24 @@ distinct = distinct query lines."
         }
         tree_case(w, &a, &b, &z, rng.coin(3, 4), "random");
     }
+    // 4b. names DERIVED from another path's name (conflict copies `f.conflict-<host>-<hash>`, backups, lookalikes): the decision for a
+    // path is the table's, whatever is decided for the path it is named after (seed C18-O: a post-pass dropped the planned delete
+    // of `f.conflict-…` whenever `f` itself was a both-changed conflict)
+    let dnames = ["f", "f.conflict-h-1", "f.conflict-h-2", "f.conflictx", "f.conf", "g", "g.conflict-h-1", "d/f", "d/f.conflict-h-9", "f.conflict-"];
+    for _ in 0..(if thorough { 20_000 } else { 3_000 }) {
+        let (mut a, mut b, mut z) = (FpMap::new(), FpMap::new(), FpMap::new());
+        for nme in dnames.iter() {
+            if rng.coin(1, 3) { continue; }
+            let base = mk(rng.below(3) as u8, 0);
+            for (mm, pr) in [(&mut a, 3u64), (&mut b, 3), (&mut z, 3)] {
+                if rng.coin(pr, 4) {
+                    let f = if rng.coin(2, 3) { base } else { mk(rng.below(4) as u8, 0) };
+                    mm.insert(PathBuf::from(nme), f);
+                }
+            }
+        }
+        tree_case(w, &a, &b, &z, rng.coin(4, 5), "derived-names");
+    }
     // 5. WIDE maps (tens to hundreds of paths, most on both sides): whatever the whole-tree function does with the union of keys
     // (sorting, de-duplication, merging) behaves differently above the small-input fast paths of the library routines it uses
     let wide = if thorough { 400 } else { 60 };
